@@ -119,6 +119,24 @@ def clause_repr(R, N, w, rule="C05-repr"):
                 key=f"repr|{N}|{i}", data={"range": rng, "limit": lim[i]})
 
 
+def clause_accept(R, N, spec, want_hdr, logn):
+    """the reader accepts whatever ends the writer's output: at the exact length and with the canonical header, `Ok` stays
+    reachable whether the last byte is zero or not (a compressed s2 that fills its budget, the low bits of the last 14-bit
+    or w-bit field) — a decoder that "knows" the encoding ends in padding breaks the round trip"""
+    S = skeleton.session()
+    ctx = S.ctx
+    u8 = S.ty("u8")
+    for kind, L in (("Signature", spec["sig_bytelen"]), ("PublicKey", spec["pk_bytes"]), ("SecretKey", spec["sk_bytes"])):
+        inst_fb = S.find(f"falcon::{kind}::<{N}>::from_bytes")
+        for tag, rng_ in (("non-zero", (1, 255)), ("zero", (0, 0))):
+            st = St()
+            head = {0: ctx.const_int(st, want_hdr[kind](logn), u8), L - 1: ctx.mk_int(st, rng_[0], rng_[1], u8, taint=True)}
+            outs = S.run(inst_fb, [S.bytes_slice(st, "bytes", L, L, head=head)], st)
+            okv = any(type(r) is En and 0 in r.vs for r, _ in outs)
+            R.check(okv, "C05-accept", f"{kind}::<{N}>::from_bytes, last byte {tag}", "`Ok` is reachable (canonical header, exact length, every other byte arbitrary)",
+                    f"only `Err` is reachable when the last byte is {tag}: encodings the writer can produce are refused", key=f"accept|{kind}|{N}|{tag}")
+
+
 def run(R):
     S = Session()
     ctx, E, prog = S.ctx, S.E, S.prog
@@ -175,6 +193,7 @@ def run(R):
         par = c02.eval_parameters(S, N)
         R.check(par["sig_bytelen"] == spec["sig_bytelen"] == pq["sig_bytes"], "C05-size", f"FalconVariant::parameters() n={N}", f"sig_bytelen = {par['sig_bytelen']}: sign emits and from_bytes expects the specified signature size",
                 f"sig_bytelen = {par['sig_bytelen']}, specification {spec['sig_bytelen']}", key=f"siglenparam|{N}")
+        clause_accept(R, N, spec, want_hdr, logn)
         # (2) representability postcondition of gen_b0
         clause_repr(R, N, w)
         # (3) from_b0 deterministic
